@@ -252,7 +252,10 @@ def _docs(ctx, r, n):
         a, b = sorted([r.randint(1, 6), r.randint(1, 6)])
         docs.append({"blocks": blocks, "range": [a, b], "mode": r.choice(["hook", "hook", "directive", "directive"]),
                      "style": r.choice(["fenced", "rst"]), "escape": r.random() < 0.7,
-                     "plugins": r.choice([None, None, ["abbr"], ["abbr"], ["abbr", "strikethrough", "mark", "superscript"], ["strikethrough", "footnotes", "abbr", "table"]])})
+                     "plugins": r.choice([None, None, ["abbr"], ["abbr"], ["abbr", "strikethrough", "mark", "superscript"], ["strikethrough", "footnotes", "abbr", "table"]]),
+                     # through the shortcut mistune.markdown(text, plugins=[...]): the hook takes arguments, so it is wrapped in a function
+                     # made for this call (and gone after it)
+                     "shortcut": r.random() < 0.15})
     return docs
 
 
@@ -386,6 +389,34 @@ def check_render(levels, render_toc_ul, fails):
         fails.append({"input": list(levels), "kind": "wrong-nesting-or-order", "got": got, "expected": exp, "html": out})
 
 
+class _Env:
+    def __init__(self, env):
+        self.env = env
+
+
+def _shortcut(m, doc, text):
+    """mistune.markdown(text, plugins=names + [a function made for this call that installs the TOC hook with the document's range]);
+    returns the HTML and what the hook left in the environment of THIS conversion"""
+    from mistune.toc import add_toc_hook
+    cap = {}
+
+    def make(lo, hi, cap):
+        def install(md):
+            add_toc_hook(md, lo, hi)
+
+            def keep(md_, result, state):
+                cap["toc_items"] = state.env.get("toc_items")
+                return result
+            md.after_render_hooks.append(keep)
+        return install
+    # the call before this one asked for another range, with a function of its own that is gone by now
+    a, b = doc["range"]
+    other = (1, 1) if (a, b) != (1, 1) else (2, 6)
+    m.markdown(text, escape=doc["escape"], plugins=list(doc.get("plugins") or []) + [make(other[0], other[1], {})])
+    out = m.markdown(text, escape=doc["escape"], plugins=list(doc.get("plugins") or []) + [make(a, b, cap)])
+    return out, _Env(cap)
+
+
 STRIP = re.compile(r"<!--.*?-->|<[^<>]*>", re.S)
 
 
@@ -396,10 +427,13 @@ def _heading_texts(out):
 
 def check_doc(m, doc, fails):
     from mistune.toc import render_toc_ul
-    md = _converter(m, doc)
     text = _md_of(doc)
     try:
-        out, state = _parse(md, doc, text)
+        if doc.get("shortcut") and doc["mode"] == "hook" and not any(b["k"] == "inc" for b in doc["blocks"]):
+            out, state = _shortcut(m, doc, text)
+        else:
+            md = _converter(m, doc)
+            out, state = _parse(md, doc, text)
     except Exception as e:  # noqa
         fails.append({"input": doc, "kind": "exception", "got": "%s: %s" % (type(e).__name__, e)})
         return
